@@ -208,7 +208,7 @@ def syscall_sweep(ctx, rng, M, n_done, step=1, cap=80):
         out_dir = rr.out_dir()
         def targeted():
             for rel in ("tracking/run.json.tmp", "tracking/run.json", "run/@next/result.json.zst", "run/@next"):
-                for nm in ("openat", "rename", "mkdir", "unlinkat", "rmdir"):
+                for nm in ("openat", "rename", "mkdir", "unlinkat", "rmdir", "write", "copy_file_range", "sendfile", "ftruncate"):
                     for kk in (1, 2, 3): yield (nm, kk, rel)
         for name, k, rel in [(nm, kk, None) for nm in SWEEP_CALLS for kk in range(1, cap + 1)] + list(targeted()):
             key = name if rel is None else "%s@%s" % (name, rel)
@@ -257,6 +257,11 @@ def syscall_sweep(ctx, rng, M, n_done, step=1, cap=80):
                 try: last_doc = json.loads(p.stdout.decode().strip().splitlines()[-1]); last_no = rr.run_no
                 except Exception: pass
                 obs, slots, ptr = observe(rr, ids, M); recs.append([obs[1][ptr][0], obs[1][ptr][1][0]])
+            elif b'"kind":"error"' in p.stderr or b'"kind": "error"' in p.stderr:
+                # monorail itself refused to run (exit 2 with an error object): after the crashes so far the store is in a state the next run cannot
+                # start from - that is damage, not a tracing problem
+                bad.append({"call": key, "k": k, "what": "the run after the crashes so far failed to start", "rc": p.returncode, "stderr": p.stderr.decode("utf-8", "replace")[-200:], "pointer": rr.pointer()})
+                break
             else:
                 # strace could not trace (no ptrace permission): nothing learnt
                 ctx.count("strace_unusable"); ctx.notes.append("strace injection unusable: rc=%s %s" % (p.returncode, p.stderr.decode("utf-8", "replace")[-120:])); return
